@@ -1,7 +1,11 @@
 // Package props holds one monitor per property.
 package props
 
-import "verifrig/core"
+import (
+	"strings"
+
+	"verifrig/core"
+)
 
 // Ctx is what a check gets.
 type Ctx struct {
@@ -37,4 +41,20 @@ func IDs() []string {
 		out = append(out, k)
 	}
 	return out
+}
+
+// completeLines splits driver output into lines, dropping a trailing partial line
+// (a driver killed by a sanitizer may have flushed half a line).
+func completeLines(out string) []string {
+	if out == "" {
+		return nil
+	}
+	if !strings.HasSuffix(out, "\n") {
+		i := strings.LastIndex(out, "\n")
+		if i < 0 {
+			return nil
+		}
+		out = out[:i+1]
+	}
+	return strings.Split(strings.TrimSuffix(out, "\n"), "\n")
 }
